@@ -218,6 +218,10 @@ func RunC07(w *Workload, st *Stats, maxYields uint64) *RunReport {
 			return rep
 		}
 		docs[i] = v
+	}
+	applyShares(w, docs)
+	for i, d := range w.Docs {
+		v := docs[i]
 		fp0[i] = Fingerprint(v)
 		enc0[i] = Enc(v)
 		containerPtrs(v, docPtrs)
@@ -426,10 +430,14 @@ func RunC06(w *Workload, st *Stats, maxYields uint64) *RunReport {
 		}
 		h.docs = append(h.docs, v)
 		h.fed = append(h.fed, false)
-		h.fps = append(h.fps, Fingerprint(v))
+		h.fps = append(h.fps, 0)
 		if hasSpare(d) {
 			st.SpareCapDocs++
 		}
+	}
+	applyShares(w, h.docs)
+	for i := range h.docs {
+		h.fps[i] = Fingerprint(h.docs[i])
 	}
 	ops := w.Tasks[0]
 	recs := make([]callRec, len(ops))
@@ -702,6 +710,17 @@ func mutateDoc(root *any, seed uint64) bool {
 		keys = append(keys, k)
 	}
 	sort.Strings(keys)
+	// records: prefer changing a member that expressions sort, group or filter by
+	for _, k := range []string{"id", "name", "grp"} {
+		if _, ok := s.m[k]; ok && splitmix64(&st)%3 == 0 {
+			if k == "id" {
+				s.m[k] = float64(splitmix64(&st) % 9)
+			} else {
+				s.m[k] = "mut" + fmt.Sprint(splitmix64(&st)%5)
+			}
+			return true
+		}
+	}
 	switch splitmix64(&st) % 3 {
 	case 0:
 		if len(keys) > 0 {
